@@ -344,8 +344,8 @@ Lemma inv_step_set_params : forall st s b st' o, Inv st -> step_set_params st s 
 Proof.
   intros st s b st' o H. unfold step_set_params.
   destruct (negb (is_kind st KSpace s)); intros E; inversion E; subst; [exact H|].
-  set (st1 := if c_params (get_cont st s) then discard_items st (items_of st s) else st).
-  assert (Inv st1) as H1 by (unfold st1; destruct (c_params (get_cont st s)); [apply inv_discard_items|]; exact H).
+  set (st1 := discard_items st ((if c_params (get_cont st s) then items_of st s else []) ++ dyn_roots st s)).
+  assert (Inv st1) as H1 by (unfold st1; apply inv_discard_items; exact H).
   destruct H1 as [HR [HS [HB HD]]]. split; [|split; [|split]].
   - apply res_upd_cont; [exact HR|]. intros c x Hx. left. exact Hx.
   - exact HS.
